@@ -12,7 +12,7 @@ Bounded-exhaustive enumeration, executed on the real extension module inside vx-
   view_reuse   explicit-state BFS (to fixpoint) over the reuse histories of ONE StripedSequence object
                ({calculate with widths 5, 15, 33, 40, copy}) - a fresh view is taken and fully compared
                after every transition; also ScoringMatrix after it has been used for scoring.
-  stale_view   18 histories of {view, release, copy, calculate, scan} with views held ACROSS reuses (fitting the
+  stale_view   27 histories of {view, release, copy, calculate, scan} with views held ACROSS reuses (fitting the
                reserved rows or reallocating; on the object and on copies); only with --only stale_view, meant to
                be run under valgrind by the driver.
 
@@ -585,7 +585,7 @@ REUSE_DESC = ("explicit-state BFS to fixpoint over reuse histories of ONE real S
               "by calculate / score_distribution / pvalue.")
 STALE_DESC = ("histories on ONE striped sequence (L=100; DNA under the default and the generic arm, protein), meant to run under valgrind: "
               "ops {view = memoryview(seq) kept alive, release, copy (continue on the copy, the original and its views stay alive), calculate(width M), scan(width M)}; "
-              "18 histories: a view held across calculate / scan with widths that fit the rows reserved when striping (5, 15, 33) or not (40); "
+              "27 histories: a view held across calculate / scan with widths that fit the rows reserved when striping (5, 15, 18, 20, 32, 33) or not (34, 40); "
               "the same on a COPY (no spare rows: widths 2, 5, 40) and on a copy of a configured sequence; views of the original while the copy is reused and vice versa; "
               "two views with one released; released-then-reused-then-viewed. After every operation every live view is read in full through the exported pointer. "
               "A reuse refused with BufferError while a view is alive must leave the view intact and go through once the views are released. "
@@ -805,9 +805,14 @@ def stale_history(rep, spec):
     views, old = [], []
     first = [None, None]
 
+    def total(v):
+        # cell by cell through shape / strides (the exporter's Py_buffer.len counts the look-ahead rows too once the
+        # sequence has been configured, so bytes(v) is not the logical content; len is outside the statement)
+        return sum(v[c, r] for c in range(v.shape[0]) for r in range(v.shape[1]))
+
     def read_all(after):
         for v in views:
-            got = sum(bytes(v))
+            got = total(v)
             if first[0] is None:
                 first[0] = got
             first[1] = got
@@ -838,7 +843,7 @@ def stale_history(rep, spec):
                     rep.note("stale_view: the library refuses the growing reuse while a view is held (%s: %s) - the view stays valid" % (r[1], r[2][:120]))
                     # once the views are released the same reuse must go through
                     keep = [v for v in views if v.obj is not seq]
-                    probe = [bytes(v) for v in mine]
+                    probe = [total(v) for v in mine]
                     for v in mine:
                         v.release()
                     views[:] = keep
@@ -846,7 +851,7 @@ def stale_history(rep, spec):
                     if r2[0] == "exc" and not (protein and kind == "scan" and "Panic" not in r2[1]):
                         rep.violation("C18 StripedSequence reuse refused without a live view %s" % r2[1],
                                       "%s(width %d) after releasing every view raised %s(%s)" % (kind, M, r2[1], r2[2][:120]), dict(spec))
-                    if any(sum(b) != expected for b in probe):
+                    if any(b != expected for b in probe):
                         rep.violation("C18 StripedSequence view held across a refused reuse shows different bytes", "contents changed", dict(spec))
                 elif protein and kind == "scan" and "Panic" not in r[1]:
                     pass  # documented: the scanner is DNA only
@@ -867,8 +872,13 @@ def stale_histories():
     # a view held across a reuse that fits the rows reserved when striping (5, 15, 33) or does not (40)
     for M in (5, 15, 33, 40):
         hs.append([["view"], ["calc", M], ["read"]])
-    for M in (5, 40):
+    for M in (5, 33, 34, 40):
         hs.append([["view"], ["scan", M], ["read"]])
+    # widths around the boundary of what the reserved rows hold (33 fits, 34 does not) and mid-range widths
+    for M in (18, 20, 32, 34):
+        hs.append([["view"], ["calc", M], ["read"]])
+    hs.append([["copy"], ["view"], ["scan", 2], ["read"]])
+    hs.append([["calc", 5], ["view"], ["scan", 34], ["read"]])
     # a copy has no spare rows: every reuse of a copy that adds look-ahead rows moves its matrix
     for M in (2, 5, 40):
         hs.append([["copy"], ["view"], ["calc", M], ["read"]])
